@@ -624,7 +624,14 @@ pub fn families(id: &str, quick: bool) -> Vec<Family> {
                 f.push(chain_family("chain of 2 + other", 2,
                     (3..=6u64).flat_map(|t| (0..=1u64).map(move |j| ArrSpec::Sporadic { t, j })).collect(), 2, grid(3, 5, 1, 2, false), sups.clone()));
                 f.push(fifo_family("event sources x2", 2, grid(2, 5, 2, 2, true), sups.clone()));
+                // four callbacks: three interfering ones in every kind / priority position
+                f.extend(indep_family("ecrts19 4 callbacks {(5,0),(8,6)} C=1", None, vec![(2, 2), (1, 3), (0, 4), (3, 1)],
+                    vec![(ArrSpec::Sporadic { t: 5, j: 0 }, 1u64), (ArrSpec::Sporadic { t: 8, j: 6 }, 1)],
+                    vec![SupplySpec::Dedicated]));
             } else {
+                f.extend(indep_family("ecrts19 4 callbacks {(5,0),(8,6),(6,1)} C=1", None, vec![(2, 2), (1, 3), (0, 4), (3, 1)],
+                    vec![(ArrSpec::Sporadic { t: 5, j: 0 }, 1u64), (ArrSpec::Sporadic { t: 8, j: 6 }, 1), (ArrSpec::Sporadic { t: 6, j: 1 }, 1)],
+                    vec![SupplySpec::Dedicated, SupplySpec::Periodic { q: 2, p: 3 }]));
                 f.extend(indep_family("ecrts19 T2..8 J<=3 C<=2", None, vec![(1, 1), (0, 2), (2, 0)], grid(2, 8, 3, 2, true), sups.clone()));
                 f.extend(indep_family("ecrts19 T2..6 J<=2 C<=2", None, vec![(1, 2), (2, 1), (0, 3), (3, 0)], grid(2, 6, 2, 2, false), sups.clone()));
                 f.push(chain_family("chain of 2 + other", 2,
@@ -691,6 +698,8 @@ pub fn families(id: &str, quick: bool) -> Vec<Family> {
                         vec![SupplySpec::Dedicated, SupplySpec::Periodic { q: 2, p: 3 }]));
                     f.extend(indep_family(&format!("{nm} T{{3,4,7}} J{{0,2}} C=1"), Some(bw), vec![(0, 3), (1, 2)],
                         [3u64, 4, 7].iter().flat_map(|t| [0u64, 2].into_iter().map(move |j| (ArrSpec::Sporadic { t: *t, j }, 1u64))).collect(), sups.clone()));
+                    f.extend(indep_family(&format!("{nm} T{{5,9}} J<=1 C<=2"), Some(bw), vec![(1, 2), (0, 3), (2, 1)],
+                        [5u64, 9].iter().flat_map(|t| (0..=1u64).flat_map(move |j| (1..=2u64).map(move |c| (ArrSpec::Sporadic { t: *t, j }, c)))).collect(), sups.clone()));
                     f.extend(indep_family(&format!("{nm} T2..12 J<=3 C<=2"), Some(bw), vec![(1, 1), (0, 2), (2, 0)], grid(2, 12, 3, 2, true), sups.clone()));
                     f.extend(indep_family(&format!("{nm} T{{3,4,6,8,12}} J<=2 C<=2"), Some(bw), vec![(1, 2), (2, 1), (0, 3)],
                         [3u64, 4, 6, 8, 12].iter().flat_map(|t| (0..=2u64).flat_map(move |j| (1..=2u64).map(move |c| (ArrSpec::Sporadic { t: *t, j }, c)))).collect(), supplies(true)));
